@@ -1012,6 +1012,20 @@ func (fr *Frame) step(ins ssa.Instruction, st *State, edges map[edgeKey]*State) 
 			v = x.(*ssa.ChangeInterface).X
 		}
 		fr.env[x.(ssa.Value)] = fr.val(v)
+		if c, ok := x.(*ssa.ChangeType); ok {
+			// conversion between two named struct types with the same underlying type: the value sorts differ,
+			// so the value is rebuilt field by field
+			from, to := c.X.Type(), c.Type()
+			sf, ok1 := rawStruct(from)
+			st2, ok2 := rawStruct(to)
+			if ok1 && ok2 && typeKey(from) != typeKey(to) && sf.NumFields() == st2.NumFields() && sf.NumFields() > 0 {
+				var fs []*Term
+				for i := 0; i < sf.NumFields(); i++ {
+					fs = append(fs, fr.vc.fieldOf(from, i, fr.val(v)))
+				}
+				fr.env[x.(ssa.Value)] = fr.vc.mkStruct(to, fs)
+			}
+		}
 		if ci, ok := fr.vc.closures[fr.val(v)]; ok {
 			_ = ci
 		}
